@@ -29,7 +29,8 @@ PROPS = {
     },
     "C04": {
         "module": "Cdecao.Props.C04",
-        "theorems": ["Props.C04_no_deadlock", "Props.C04_done_means_finished", "Props.C04_stats_step", "Props.C04_bounded_work"],
+        "theorems": ["Props.C04_no_deadlock", "Props.C04_done_means_finished", "Props.C04_stats_step", "Props.C04_bounded_work",
+                     "Props.C04_stats_reach", "Props.C04_panicked", "Props.C04_stats_at_done", "Props.C04_stats_at_finished", "Props.C04_done_absorbing", "Props.C04_join"],
         "streams": ["engine", "solve"],
     },
     "C05": {
@@ -49,7 +50,8 @@ PROPS = {
     },
     "C08": {
         "module": "Cdecao.Props.C08",
-        "theorems": ["Props.C08_score", "Props.C08_score_valid"],
+        "theorems": ["Props.C08_score", "Props.C08_score_valid", "Props.C08_max_ge", "Props.C08_quality_identity", "Props.C08_quality_lack",
+                     "Props.C08_combined", "Props.C08_quality_max", "Props.C08_quality_engine"],
         "streams": ["node", "solve", "cli-simple", "e2e-cde"],
     },
     "C09": {
@@ -99,7 +101,8 @@ PROPS = {
     },
     "C19": {
         "module": "Cdecao.Props.C19",
-        "theorems": ["Props.C19_no_hang", "Props.C19_bounded_work"],
+        "theorems": ["Props.C19_no_hang", "Props.C19_bounded_work", "Props.C19_dead_absorbing", "Props.C19_failure_reported", "Props.C19_join_not_stuck",
+                     "Props.C19_outcome_final", "Props.C19_panicked_pos"],
         "streams": ["engine-fault"],
     },
     "C20": {
@@ -123,7 +126,7 @@ LEVELS = {
             "note": _NODE + " The theorem `rooms_nonbinding` (identical node results) is not yet proved; that half is correspondence + paired-run oracle only (partial)."},
     "C03": {"text": "Theorem Props.C03: two finished runs of the engine model on a bounded tree agree on found/score for all thread counts and schedules. Props.C03_caobab discharges the premise for the caobab node solver (valid instances outside the F1 class, with or without rooms, any float behaviour); inside the F1 class Bounded stays a hypothesis and real runs under 3-6 seeded schedules x thread counts must agree.",
             "note": _ENG + " Partial only inside the F1 class (instructors with own choices of non-fixed courses), where `Bounded` is not proved."},
-    "C04": {"text": "Theorems Props.C04_no_deadlock, C04_done_means_finished, C04_stats_step, C04_bounded_work over the engine model, all T >= 1 and schedules incl. spurious wake-ups; every real run under the shim is replayed through the model with all six counters compared, and the shim's deadlock detector and step budget watch the real code.",
+    "C04": {"text": "Theorems Props.C04_no_deadlock, C04_done_means_finished, C04_stats_step, C04_bounded_work and C04_stats_at_done (at AllDone: executed = no-solution + infeasible + feasible and generated = executed + bound, for every reachable run of the product system), C04_done_absorbing, over the engine model, all T >= 1 and schedules incl. spurious wake-ups; every real run under the shim is replayed through the model with all six counters compared, and the shim's deadlock detector and step budget watch the real code.",
             "note": _ENG},
     "C05": {"text": "Writer theorems Props.C05_regs / C05_courses / C05_no_cancelled_assignment over the model of io::cdedb::write; end to end through the REAL binary: generated exports x option combinations -> import file -> (a) independent reference model of the partial import + the clauses of C05 in database ids (Python), (b) the Lean models: reader (CD.read), decoded assignment, writer equality, HardOK and RoomOK evaluated by the driver on the problem the model reads.",
             "note": "io/cdedb.rs reader and writer are modelled by CD.read / CD.writeRegs / CD.writeCourses from the serde_json value on (bytes -> value is serde_json's). The composition theorem `Consistent` (reader + HardOK + writer) is not assembled yet: partial."},
@@ -131,7 +134,7 @@ LEVELS = {
             "note": _NODE + " The effective size is the documented formula as evaluated in f32."},
     "C07": {"text": "Theorems Props.C07_partial (perfect matching, score = weight, optimal) and C07_total (returns whenever a constrained perfect matching exists) about H2.run, all sizes/weights/masks; exact correspondence (matching array and score) on random matrices, Perfect/weight evaluated in Lean on the real output, brute-force optimum for <= 9 rows.",
             "note": "hungarian.rs is modelled by H2.run (same iteration and tie-breaking). i32 overflow is not modelled (weights < 2^20 as in the property)."},
-    "C08": {"text": "Theorem Props.C08_score: the stored best score equals the documented score of the incumbent (all T, schedules, room lists). Quality figures and the CdE external-rank half are covered by the quality/cdedb streams once built; currently the score half is claimed.",
+    "C08": {"text": "Theorem Props.C08_score: the stored best score equals the documented score of the incumbent (all T, schedules, room lists). Props.C08_max_ge (theoretical maximum >= score, no hypothesis), C08_quality_lack / C08_quality_identity (score + total penalty = #participants-with-choices x 50000, so the reported lack is the mean penalty, instructors counting zero), C08_combined (overall quality with the external data), C08_quality_engine (lifted to the incumbent of the search). The real binary's quality object and summary are compared bit-exactly (f32) with the model's exact fractions; the external rank of ignored pre-assigned attendees is part of the exact reader correspondence.",
             "note": _NODE + " InstOK2 adds: no instructor listed twice (both readers guarantee it), penalties <= 50000."},
     "C09": {"text": "Theorems Props.C09 / C09_none_iff: for arbitrary node solvers with Bounded trees, every T >= 1 and schedule, the finished engine holds a solution of maximal score, or none iff the tree has no feasible node. Real runs on random synthetic trees under seeded schedules are replayed through the model and compared with the max leaf.",
             "note": _ENG},
@@ -149,8 +152,8 @@ LEVELS = {
             "note": "Runtime behaviour (which errno, short writes) cannot be exhibited by the model: proof of the decision logic + fault enumeration (partial by nature). Running as root, a read-only directory is not a fault."},
     "C18": {"text": "Theorems Props.C18_sound / C18_nonempty / C18_dedup for the double loop RS.possible under ANY sorting permutation of equally sized courses; exact correspondence (strings) of get_course_room_size_list / get_course_room_kind_names with the Lean model given the rank order the real unstable sort produced, on room-feasible assignments with shuffled room lists, duplicate capacities, fewer/more rooms than courses, quantity-0 kinds; the executable specification (usable room = large enough + remaining courses still fit) is evaluated on every listing, also on the real binary's --print output.",
             "note": "Plumbing (re-indexing by course, kind names) is in the executable model RM.* and tied by correspondence; its Lean proof is in progress."},
-    "C19": {"text": "Theorems Props.C19_no_hang / C19_bounded_work: with panicking node solvers anywhere in the tree, all T >= 1 and schedules, some non-wake step is enabled until every worker is done or dead. Real runs with one failing node at random positions under seeded schedules: no deadlock, panic propagated, trace replays through the model.",
-            "note": _ENG + " The join loop of bab::solve is not part of the model (the replay driver compares the join order)."},
+    "C19": {"text": "Theorems Props.C19_no_hang / C19_bounded_work: with panicking node solvers anywhere in the tree, all T >= 1 and schedules, some non-wake step is enabled until every worker is done or dead. Props.C19_failure_reported: once a worker is dead it stays dead, the join loop of bab::solve (modelled by `outcome`) can never report success, the system is not stuck before everybody finished, and at AllFinished the join loop reports the failure. Real runs with one failing node at random positions under seeded schedules: no deadlock, panic propagated, trace replays through the model.",
+            "note": _ENG + " Eventual termination needs a fairness assumption on the scheduler (potential argument C19_bounded_work); the OS scheduler's fairness is trusted."},
     "C20": {"text": "Theorems Props.C20_*: binom = choose; for 1 <= k <= n exactly choose n k selections, the i-th strictly increasing, below n, of rank i; stops after the last; empty for k = 0 or k > n; size hint exact. All (n,k) with n <= 11 (thorough 18) compared exhaustively with the real iterator.",
             "note": "util.rs is modelled by S.succ/S.iterNext/S.sizeHint/S.binom (recursion on the suffix instead of the in-place loop); the two are tied by the exhaustive stream."},
 }
